@@ -42,6 +42,22 @@ def c11_1(ctx):
             ctx.fail(fn, loop, 'the finished group is recorded but the running group is not restarted on the path [%s]' % ' & '.join(p.cond_texts()))
         if not any(isinstance(s, ast.Assign) and U(s.targets[0]) == 'prev' and U(s.value) == key for s in p.stmts):
             ctx.fail(fn, loop, 'prev is not updated to the current key on the path [%s]' % ' & '.join(p.cond_texts()))
+    # the "same run" test: the first row opens a run, later rows continue it iff their key equals the previous key
+    runs = [s for s in loop.body if isinstance(s, ast.If)]
+    ctx.count(1)
+    if runs:
+        same = None
+        for form in ('len(row) == 0 or %s == prev' % key, 'len(row) == 0 or cmp(%s, prev) == 0' % key, 'len(row) == 0 or eq(%s, prev)' % key):
+            ok, w = prop_equiv(runs[0].test, form)
+            if ok:
+                same = form
+        if same is None:
+            ctx.fail(fn, runs[0], 'a row continues the current run when `%s`, expected `len(row) == 0 or key == prev` (the first row opens a run; otherwise a bogus empty group is recorded or runs are merged)' % U(runs[0].test))
+        elif not any(isinstance(x, ast.Expr) and N(x.value) == 'row.append(%s)' % idx for x in runs[0].body):
+            ctx.fail(fn, runs[0], 'a row of the same run is not appended to it')
+    init = {U(s.targets[0]): N(s.value) for s in fn.body if isinstance(s, ast.Assign) and s.lineno < loop.lineno}
+    if init.get('res') != '[]' or init.get('row') != '[]':
+        ctx.fail(fn, loop, 'the group list / running group do not start empty')
     after = fn.body[fn.body.index(loop) + 1:]
     ctx.count(1)
     if not any(isinstance(s, ast.Expr) and N(s.value) == 'res.append((prev, row))' for s in after):
@@ -225,3 +241,49 @@ def c11_5(ctx):
         ctx.fail(fn, fn.node, 'y labels do not cycle through the y columns once per row: %s' % defs.get('res[y]'))
     if defs.get('res[z]') != NS('sum([[row[ycol] for ycol in ycols] for row in self], [])'):
         ctx.fail(fn, fn.node, 'z cells are not read row by row in y-column order: %s' % defs.get('res[z]'))
+
+
+@obligation('C11.6', 'PROP guards + MATCH argument roles', 'dictable.listby, dictable.groupby, dictable.xyz, dictable.unpivot',
+            'trivial cases and argument roles of the regroupings: an empty table is returned as a copy, no key means all columns, tables are built as (values, column names) in that order',
+            axioms=())
+def c11_6(ctx):
+    r = ctx.repo
+    f = r.fn('_dictable:dictable.listby')
+    expect_guards(ctx, f, [('len(self) == 0', 'return self.copy()', 'an empty table has nothing to regroup'),
+                           ('len(by) == 0', 'by = self.keys()', 'no key given means all columns'),
+                           ('len(by) == 0', 'return type(self)({key: [value] for key, value in dict(self).items()})', 'a table without columns')], where=f.body)
+    ctx.count(1)
+    if not any(isinstance(s, ast.Assign) and U(s.targets[0]) == 'by' and N(s.value) == 'as_tuple(by)' for s in f.body):
+        ctx.fail(f, f.node, 'the key columns are not normalised with as_tuple (self[by] must be a list of key TUPLES)')
+    g = r.fn('_dictable:dictable.groupby')
+    expect_guards(ctx, g, [('len(self) == 0', 'return self.copy()', 'an empty table has nothing to group'),
+                           ('len(by) == 0', 'by = self.keys()', 'no key given means all columns')], where=g.body)
+    ctx.count(1)
+    if not any(isinstance(s, ast.Assign) and U(s.targets[0]) == 'by' and N(s.value) == 'as_tuple(by)' for s in g.body):
+        ctx.fail(g, g.node, 'the key columns are not normalised with as_tuple')
+    rt = [s for s in g.body if isinstance(s, ast.Assign) and U(s.targets[0]) == 'rtn']
+    if not rt or N(rt[0].value) != 'type(self)(xs, by)':
+        ctx.fail(g, rt[0] if rt else g.node, 'the key table of groupby is `%s`, expected type(self)(xs, by): rows first, column names second' % (U(rt[0].value) if rt else '?'))
+    x = r.fn('_dictable:dictable.xyz')
+    ctx.count(1, x.where())
+    defs = {U(s.targets[0]): N(s.value) for s in x.body if isinstance(s, ast.Assign) and isinstance(s.targets[0], ast.Name)}
+    want = {'agg': 'as_list(agg)', 'x': 'as_tuple(x)', 'rs': NS('type(self)(xys, x + (y_,))'), 'dx': 'type(self)(xs, x)', 'dy': 'type(self)(res, list(y2id.keys()))',
+            'ys': 'rs[as_list(y_)].listby(y_)', 'y_': NS("y if is_str(y) else '_columns'")}
+    for k, w in want.items():
+        if defs.get(k) != w:
+            ctx.fail(x, x.node, 'pivot: `%s = %s`, expected `%s`' % (k, defs.get(k), w), stmt='xyz %s' % k)
+    expect_guards(ctx, x, [('not is_strs(x)', "raise ValueError('x must be columns %s' % x)", 'x must name columns')], where=x.body)
+    lb = [s for s in x.body if isinstance(s, ast.Assign) and isinstance(s.targets[0], ast.Tuple) and isinstance(s.value, ast.Call) and call_name(s.value) == '_listby']
+    if [ (N(s.targets[0]), N(s.value)) for s in lb] != [('(xys, ids)', 'self._listby(xykeys)'), ('(xs, yids)', 'rs._listby(x)')]:
+        ctx.fail(x, x.node, 'pivot does not group first by (x, y) on the table and then by x on the (x, y) table')
+    u = r.fn('_dictable:dictable.unpivot')
+    ctx.count(1, u.where())
+    yd = [s for s in u.body if isinstance(s, ast.If) and 'isinstance(y, dict)' in U(s.test)]
+    if yd:
+        ok, w = prop_equiv(yd[0].test, 'isinstance(y, dict) and len(y) == 1')
+        if not ok or N(yd[0].body[0].value) != 'list(y.items())[0]' or N(yd[0].body[0].targets[0]) != '(y, ycols)':
+            ctx.fail(u, yd[0], 'the {label: columns} spelling of y is handled as `if %s: %s`' % (U(yd[0].test), U(yd[0].body[0])), witness=w)
+    if not any(isinstance(s, ast.Assign) and U(s.targets[0]) == 'ycols' and N(s.value) == 'as_tuple(ycols)' for s in u.body):
+        ctx.fail(u, u.node, 'the y columns are not normalised with as_tuple (ycols * len(self) must repeat a tuple)')
+    if not any(isinstance(s, ast.Assign) and U(s.targets[0]) == 'xcols' and N(s.value) == 'as_list(x)' for s in u.body):
+        ctx.fail(u, u.node, 'the x columns are not as_list(x)')
